@@ -71,6 +71,10 @@ func genTooLarge() *rapid.Generator[uint64] {
 
 func genValidDots(t *rapid.T) []piecefunc.Dot {
 	n := rapid.IntRange(2, 6).Draw(t, "ndots")
+	if rapid.IntRange(0, 5).Draw(t, "longTable") == 0 {
+		// long tables (a lookup may switch to another search above some length)
+		n = rapid.IntRange(7, 70).Draw(t, "ndotsLong")
+	}
 	var xs []uint64
 	if rapid.IntRange(0, 3).Draw(t, "xmode") == 0 {
 		// a run of close neighbours starting at a drawn coordinate
@@ -193,6 +197,15 @@ func drawXs(t *rapid.T, dots []piecefunc.Dot) []xsample {
 	n := len(dots)
 	first, last := dots[0].X, dots[n-1].X
 	res := []xsample{{0, "x_zero"}, {math.MaxUint64, "x_max_uint64"}}
+	if n > 6 {
+		// long tables: every dot and a point in every piece
+		for i := range dots {
+			res = append(res, xsample{dots[i].X, "x_at_dot"})
+			if i+1 < n {
+				res = append(res, xsample{dots[i].X + (dots[i+1].X-dots[i].X)/2, "x_in_range"})
+			}
+		}
+	}
 	k := rapid.IntRange(1, 6).Draw(t, "nx")
 	for j := 0; j < k; j++ {
 		switch rapid.IntRange(0, 6).Draw(t, "xkind") {
